@@ -11,17 +11,27 @@ Notation lstack := (lstack P).
 Notation gp := (gp P).
 Notation empty := (empty_layer P PA PR).
 
-Lemma gp_empty_layers (privs : list P) (s0 : lstack) a_as a :
-  base_complete P PA PR s0 -> gp (map empty privs ++ s0) a_as a = gp s0 a_as a.
+Lemma invoke_empty_layers (privs : list P) (s0 : lstack) h arg :
+  base_complete P PA PR s0 ->
+  invoke P PA PR true (map empty privs ++ s0) h arg (S (length (map empty privs ++ s0)))
+  = invoke P PA PR true s0 h arg (S (length s0)).
 Proof.
-  intro Hb. unfold CbCache.gp.
-  destruct (empty_layers_change_nothing P PA PR privs s0 HGetPage (a_as, a) (S (length s0)) Hb
+  intro Hb.
+  destruct (empty_layers_change_nothing P PA PR privs s0 h arg (S (length s0)) Hb
               ltac:(lia)) as [H _].
-  unfold invoke_site in H. fold (invoke P PA PR true (map empty privs ++ s0) HGetPage (a_as, a)) in H.
+  unfold invoke_site in H. fold (invoke P PA PR true (map empty privs ++ s0) h arg) in H.
   rewrite app_length, map_length.
   replace (S (length privs + length s0)) with (length privs + S (length s0)) by lia.
   unfold invoke. rewrite H. reflexivity.
 Qed.
+
+Lemma gp_empty_layers (privs : list P) (s0 : lstack) a_as a :
+  base_complete P PA PR s0 -> gp (map empty privs ++ s0) a_as a = gp s0 a_as a.
+Proof. intro Hb. unfold CbCache.gp. now rewrite invoke_empty_layers. Qed.
+
+Lemma caps_empty_layers (privs : list P) (s0 : lstack) :
+  base_complete P PA PR s0 -> caps P (map empty privs ++ s0) = caps P s0.
+Proof. intro Hb. unfold CbCache.caps. now rewrite invoke_empty_layers. Qed.
 
 (** [read] looks at the page source only at the requested address *)
 Lemma read_ext g1 g2 c a_as a n :
@@ -47,54 +57,61 @@ Qed.
     run over the base stack alone *)
 Lemma hrun_erase (s0 : lstack) : base_complete P PA PR s0 ->
   forall ops privs c,
-  dels_ok P (length privs) ops = true ->
+  dels_ok P (caps P s0) (length privs) ops = true ->
   let '(st', ev, rs) := hrun P {| h_stack := map empty privs ++ s0; h_cache := c |} ops in
-  h_cache P st' = final (gp s0) c (erase P ops) /\
-  ev = snd (run (gp s0) c (erase P ops)) /\
+  h_cache P st' = final (gp s0) c (erase P (caps P s0) ops) /\
+  ev = snd (run (gp s0) c (erase P (caps P s0) ops)) /\
   map (fun r => OutR r) rs =
     filter (fun o => match o with OutR _ => true | _ => false end)
-           (map fst (fst (run (gp s0) c (erase P ops)))).
+           (map fst (fst (run (gp s0) c (erase P (caps P s0) ops)))).
 Proof.
   intro Hb. induction ops as [|o ops IH]; intros privs c Hd.
   - simpl. auto.
-  - destruct o as [p | i | a_as a n | a_as a]; cbn [hrun hstep erase dels_ok h_stack h_cache] in *.
+  - destruct o as [p | p m | i | a_as a n | a_as a]; cbn [hrun hstep erase dels_ok h_stack h_cache] in *.
     + specialize (IH (p :: privs) c Hd). cbn [map app] in IH.
       change (add_cb P PA PR p (map empty privs ++ s0)) with (empty p :: map empty privs ++ s0).
       destruct (hrun P _ ops) as [[st' ev] rs]. exact IH.
+    + discriminate.
     + apply andb_true_iff in Hd as [Hi Hd]. apply Nat.ltb_lt in Hi.
       destruct (del_added privs s0 i Hi) as (privs' & Hdel & Hl). rewrite Hdel.
       rewrite <- Hl in Hd. specialize (IH privs' c Hd).
       destruct (hrun P _ ops) as [[st' ev] rs]. exact IH.
-    + rewrite (read_ext (gp (map empty privs ++ s0)) (gp s0)) by (now apply gp_empty_layers).
-      destruct (read (gp s0) c a_as a n) as [[c' ev1] r] eqn:Er.
+    + rewrite (caps_empty_layers privs s0 Hb).
+      destruct (eff_as (caps P s0) a_as) as [as'|]; [|discriminate].
+      rewrite (read_ext (gp (map empty privs ++ s0)) (gp s0)) by (now apply gp_empty_layers).
+      destruct (read (gp s0) c as' a n) as [[c' ev1] r] eqn:Er.
       specialize (IH privs c' Hd).
       destruct (hrun P _ ops) as [[st' ev] rs]. destruct IH as (IH1 & IH2 & IH3).
       rewrite final_cons. cbn [run].
-      rewrite (run_op_flat_read (gp s0) c a_as a n), Er. cbn [fst snd].
-      destruct (run (gp s0) c' (erase P ops)) as [tr ev2] eqn:Erun. cbn [fst snd] in *.
+      rewrite (run_op_flat_read (gp s0) c as' a n), Er. cbn [fst snd].
+      destruct (run (gp s0) c' (erase P (caps P s0) ops)) as [tr ev2] eqn:Erun. cbn [fst snd] in *.
       repeat split; [exact IH1|now rewrite IH2|]. cbn [map filter]. now rewrite IH3.
     + specialize (IH privs (bury c a_as a) Hd).
       destruct (hrun P _ ops) as [[st' ev] rs]. destruct IH as (IH1 & IH2 & IH3).
       rewrite final_cons. cbn [run run_op fst snd].
-      destruct (run (gp s0) (bury c a_as a) (erase P ops)) as [tr ev2] eqn:Erun. cbn [fst snd] in *.
+      destruct (run (gp s0) (bury c a_as a) (erase P (caps P s0) ops)) as [tr ev2] eqn:Erun.
+      cbn [fst snd] in *.
       repeat split; [exact IH1|exact IH2|exact IH3].
 Qed.
 
-Lemma erase_flat ops : forallb flat_op (erase P ops) = true.
-Proof. induction ops as [|[p|i|x y z|x y] ops IH]; simpl; auto. Qed.
+Lemma erase_flat m ops : forallb flat_op (erase P m ops) = true.
+Proof.
+  induction ops as [|[p|p k|i|x y z|x y] ops IH]; simpl; auto.
+  destruct (eff_as m x); simpl; auto.
+Qed.
 
 (** every page obtained is put exactly once: along the history the gotten
     pages are the put pages plus those the slots hold, and the final
     [cleanup_cache] (context destruction) puts exactly those *)
 (** the base page source hands out well-formed regions (as Hist/ReadCacheProofs assumes) *)
-Definition regions_ok (g : N -> N -> PR) : Prop :=
+Definition regions_ok (g : N -> N -> option (N * N * list byte)) : Prop :=
   (forall a_as a b s d, g a_as a = Some (b, s, d) ->
      (b <= a < b + s)%N /\ N.of_nat (length d) = s /\ (b + s <= W)%N) /\
   (forall a_as a b s d a', g a_as a = Some (b, s, d) -> (b <= a' < b + s)%N ->
      g a_as a' = Some (b, s, d)).
 
 Lemma layers_pages_balanced (s0 : lstack) ops :
-  base_complete P PA PR s0 -> regions_ok (gp s0) -> dels_ok P 0 ops = true ->
+  base_complete P PA PR s0 -> regions_ok (gp s0) -> dels_ok P (caps P s0) 0 ops = true ->
   let '(st', ev, _) := hrun P {| h_stack := s0; h_cache := init_cache |} ops in
   forall f : page -> nat,
     msum f (gots ev) = (msum f (puts ev) + msum f (live (h_cache P st')))%nat /\
@@ -104,8 +121,43 @@ Proof.
   intros Hb [Hg1 Hg2] Hd. pose proof (hrun_erase s0 Hb ops [] init_cache Hd) as H. cbn [map app] in H.
   destruct (hrun P _ ops) as [[st' ev] rs]. destruct H as (Hc & Hev & _).
   intro f. rewrite Hc, Hev.
-  destruct (readcache_pages_balanced (gp s0) Hg1 Hg2 (erase P ops) (erase_flat ops)) as (H1 & H2 & _).
+  destruct (readcache_pages_balanced (gp s0) Hg1 Hg2 (erase P (caps P s0) ops) (erase_flat _ ops)) as (H1 & H2 & _).
   split; [apply H1|apply H2].
 Qed.
+
+(** read capabilities are those of the implementation that is on top of
+    the chain at the moment of the read *)
+Lemma caps_spec (s : lstack) : base_complete P PA PR s ->
+  caps P s = match invoke_spec P PA PR s HReadCaps (0%N, 0%N) with
+             | Some (HCaps m) => m
+             | _ => 0%N
+             end.
+Proof.
+  intro Hb. unfold CbCache.caps.
+  destruct (passthrough P PA PR s HReadCaps (0%N, 0%N) (S (length s)) Hb ltac:(lia)) as (r & Hr & Hs).
+  now rewrite Hr, Hs.
+Qed.
+
+Lemma read_uses_current_caps (st : hstate P) a_as a n :
+  base_complete P PA PR (h_stack P st) ->
+  hstep P st (HRead P a_as a n) =
+  match eff_as (match invoke_spec P PA PR (h_stack P st) HReadCaps (0%N, 0%N) with
+                | Some (HCaps m) => m | _ => 0%N end) a_as with
+  | None => (st, [], Some RFail)
+  | Some as' =>
+      let '(c', ev, r) := read (gp (h_stack P st)) (h_cache P st) as' a n in
+      ({| h_stack := h_stack P st; h_cache := c' |}, ev, Some r)
+  end.
+Proof. intro Hb. cbn [hstep]. now rewrite caps_spec. Qed.
+
+(** a layer that overrides read_caps is in charge exactly while it is
+    installed: pushing it and deleting it again restores the stack, hence the
+    capabilities every later read is performed with *)
+Lemma caps_layer_add_del (st : hstate P) p m :
+  fst (fst (hstep P (fst (fst (hstep P st (HAddCaps P p m)))) (HDel P 0))) = st.
+Proof. destruct st. reflexivity. Qed.
+
+Lemma caps_layer_in_charge (s : lstack) p m : caps P (caps_layer P p m :: s) = m.
+Proof. reflexivity. Qed.
 
 End Proofs.
